@@ -250,3 +250,6 @@ def boxer_end(B):
     B.prove("every-active-box-exited-exactly-once", n == hi - lo, top=True)
     B.prove("exits-bottom-up", z3.ForAll([j], z3.Implies(z3.And(0 <= j, j < hi - lo), z3.And(z3.Select(g["calls_m"], j) == z3.StringVal("exdo"),
             z3.Select(g["calls_b"], j) == z3.Select(A, hi - 1 - j)))), top=True)
+    # frame: Box.pile hands out the box's CACHED list, so ending must not reorder it (the next run of the same boxer walks it again)
+    A1, lo1, hi1 = win(ctx, p)
+    B.prove("the-active-boxs-own-pile-is-left-as-it-was", z3.And(lo1 == lo, hi1 == hi, z3.ForAll([j], z3.Implies(z3.And(lo <= j, j < hi), z3.Select(A1, j) == z3.Select(A, j)))), top=True)
